@@ -246,6 +246,8 @@ def judge_kernel(evs, heights, results):
             # straight-line distances from the decay point to either detector
             d_ref = s_of(525.0, be) - s_of(a, be)
             d_h = s_of(h, be) - s_of(a, be)
+            if d_h == 0:
+                continue  # the detector AT the decay point: no distance ratio exists
             exp = d525 * (d_ref / d_h) ** 2
             # the production kernel evaluates both distances in single precision (float32 beta, radius and orbit
             # height); with the cancellation in the small-angle terms the measured loss is up to 2.2e-5 relative
@@ -365,7 +367,7 @@ def run(ctx):
     ctx.cov["wrapper_events"] = n
     ctx.sample({"kind": "wrapper", "altDec": 20.000000000000004, "PE_over_threshold": 2.0000000000000004, "area": 2.5, "qe": 0.2, "threshold": 10.0})
     # real kernel at several detector altitudes
-    heights = [12.0, 33.0, 100.0, 400.0, 525.0, 1000.0, 36000.0]  # (12 km: a detector inside the band of decay altitudes, decays below and above it)
+    heights = [0.0, 12.0, 33.0, 100.0, 400.0, 525.0, 1000.0, 36000.0]  # (0 km: sea level is an altitude, not "no altitude given"; 12 km: a detector inside the band of decay altitudes, decays below and above it)
     evs = kernel_events(tier)
     results = par.pmap(_kernel_eval, [(h, evs) for h in heights])
     v = judge_kernel(evs, heights, results)
